@@ -338,6 +338,8 @@ struct Net {
 	tamper_cs: Option<(u64, usize)>,
 	/// the next update_add_htlc delivered carries an onion the receiver cannot process (see op `corrupt_onion`)
 	corrupt_onion: Option<u64>,
+	/// distinct values of the static part of a channel's public projection -> small id
+	stat_ids: HashMap<String, usize>,
 	/// nodes whose user currently refuses payment events (handler returns ReplayEvent)
 	hold_events: Vec<bool>,
 	defer_drain: bool,
@@ -919,7 +921,17 @@ impl Net {
 		for cd in chans {
 			let c = self.chan(&cd.channel_id);
 			let peer = self.idx_of(&cd.counterparty.node_id);
-			self.ev(json!({"ev":"proj","node":i,"chan":c,"peer":peer,
+			// everything else a user can read about the channel that a write / read of the manager has to preserve (C12),
+			// interned to a small number per distinct value
+			let stat = format!("{:?}|{:?}|{}|{:?}|{}|{:?}|{:?}|{:?}|{:?}|{:?}|{:?}|{:?}|{}|{}|{:?}|{:?}|{:?}|{:?}|{:?}|{:?}|{:?}",
+				cd.channel_type, cd.user_channel_id, cd.channel_value_satoshis, cd.unspendable_punishment_reserve,
+				cd.counterparty.unspendable_punishment_reserve, cd.counterparty.forwarding_info.as_ref().map(|f| (f.fee_base_msat, f.fee_proportional_millionths, f.cltv_expiry_delta)),
+				cd.counterparty.outbound_htlc_minimum_msat, cd.counterparty.outbound_htlc_maximum_msat, cd.funding_txo, cd.short_channel_id,
+				cd.outbound_scid_alias, cd.inbound_scid_alias, cd.is_outbound, cd.is_announced, cd.force_close_spend_delay,
+				cd.inbound_htlc_minimum_msat, cd.inbound_htlc_maximum_msat, cd.config, cd.feerate_sat_per_1000_weight,
+				cd.channel_shutdown_state, cd.confirmations_required);
+			let stat_id = { let n = self.stat_ids.len(); *self.stat_ids.entry(stat).or_insert(n + 1) };
+			self.ev(json!({"ev":"proj","node":i,"chan":c,"peer":peer,"static":stat_id,
 				"out_cap":cd.outbound_capacity_msat,"in_cap":cd.inbound_capacity_msat,
 				"limit":cd.next_outbound_htlc_limit_msat,"min":cd.next_outbound_htlc_minimum_msat,
 				"usable":cd.is_usable,"ready":cd.is_channel_ready,
@@ -1186,6 +1198,29 @@ impl Net {
 					Some(p) => { for _ in 0..p { self.deliver_one(f, t); } did = self.deliver_ext(f, t, true); },
 					None => { did = false; },
 				}
+			},
+			"config" => {
+				// the user changes the forwarding policy / limits of its channel with `peer` (ChannelManager::update_partial_channel_config)
+				let i = op["node"].as_u64().unwrap() as usize;
+				let j = op["peer"].as_u64().unwrap_or(0) as usize;
+				if i < n && j < n && self.chan_ids.contains_key(&(i.min(j), i.max(j))) {
+					let cid = self.chan_ids[&(i.min(j), i.max(j))];
+					let pk = self.nodes[j].node.get_our_node_id();
+					let upd = lightning::util::config::ChannelConfigUpdate {
+						forwarding_fee_proportional_millionths: op["fee_ppm"].as_u64().map(|x| x as u32),
+						forwarding_fee_base_msat: op["fee_base"].as_u64().map(|x| x as u32),
+						cltv_expiry_delta: op["cltv_delta"].as_u64().map(|x| x as u16),
+						max_dust_htlc_exposure_msat: op["max_dust_msat"].as_u64().map(|x| lightning::util::config::MaxDustHTLCExposure::FixedLimitMsat(x)),
+						force_close_avoidance_max_fee_satoshis: op["avoid_fee"].as_u64(),
+						accept_underpaying_htlcs: None,
+					};
+					let ok = self.nodes[i].node.update_partial_channel_config(&pk, &[cid], &upd).is_ok();
+					let c = self.chan(&cid);
+					let cfgn = self.nodes[i].node.list_channels().iter().find(|x| x.channel_id == cid).and_then(|x| x.config);
+					let (fb, fp, cd) = cfgn.map(|x| (x.forwarding_fee_base_msat, x.forwarding_fee_proportional_millionths, x.cltv_expiry_delta)).unwrap_or((0, 0, 0));
+					self.ev(json!({"ev":"config","node":i,"chan":c,"ok":ok,"fee_base":fb,"fee_ppm":fp,"cltv_delta":cd}));
+					self.drain();
+				} else { did = false; }
 			},
 			"corrupt_onion" => {
 				// what precedes the first update_add_htlc in the queue is delivered, then that add with a broken onion
@@ -1851,7 +1886,7 @@ fn build_net(run: u64, cfg: &Value, log: &Log) -> Net {
 	let mut net = Net {
 		nodes, cfgs, persisters, queues: HashMap::new(), connected, log: log.clone(), chans, hashes, points: Vec::new(),
 		pays: Vec::new(), scids, chan_ids, run, feerate: vec![feerate0; n], executed: 0, skipped: 0,
-		funding_txids: Vec::new(), extra_funding: Vec::new(), extra_broadcast: Vec::new(), mgr_snaps: vec![Vec::new(); n], mgr_clean: vec![Vec::new(); n], mgr_msgs: vec![Vec::new(); n], msgs_emitted: vec![0; n], mgr_evheld: vec![Vec::new(); n], mgr_writes: vec![Vec::new(); n], dirty: vec![HashSet::new(); n], mgr_held: vec![Vec::new(); n], reest_seen: HashSet::new(), tamper_cs: None, corrupt_onion: None, hold_events: vec![false; n], defer_drain: false, intercepts: Vec::new(), intercept_next: HashMap::new(), batch_wait: None, hold_failed_only: vec![false; n], refused_logged: HashSet::new(), settling: false, sweepers: (0..n).map(|_| None).collect(), mempool: Vec::new(), spent: HashSet::new(), confirmed: HashSet::new(), saved_idx: vec![None; n], node_cfgs, txids, edges: edges.clone(),
+		funding_txids: Vec::new(), extra_funding: Vec::new(), extra_broadcast: Vec::new(), mgr_snaps: vec![Vec::new(); n], mgr_clean: vec![Vec::new(); n], mgr_msgs: vec![Vec::new(); n], msgs_emitted: vec![0; n], mgr_evheld: vec![Vec::new(); n], mgr_writes: vec![Vec::new(); n], dirty: vec![HashSet::new(); n], mgr_held: vec![Vec::new(); n], reest_seen: HashSet::new(), tamper_cs: None, corrupt_onion: None, stat_ids: HashMap::new(), hold_events: vec![false; n], defer_drain: false, intercepts: Vec::new(), intercept_next: HashMap::new(), batch_wait: None, hold_failed_only: vec![false; n], refused_logged: HashSet::new(), settling: false, sweepers: (0..n).map(|_| None).collect(), mempool: Vec::new(), spent: HashSet::new(), confirmed: HashSet::new(), saved_idx: vec![None; n], node_cfgs, txids, edges: edges.clone(),
 	};
 	for i in 0..n {
 		let _ = net.nodes[i].node.get_and_clear_needs_persistence();
@@ -2039,6 +2074,19 @@ fn random_script(rng: &mut StdRng, n: usize, profile: &str) -> Value {
 		} else if r < 94 && profile != "nodisc" {
 			let a = rng.gen_range(0..n - 1);
 			ops.push(json!({"op":"reconnect","a":a,"b":a+1}));
+		} else if r == 98 && profile != "limits" {
+			// the user changes the policy / limits of one of its channels
+			let i = rng.gen_range(0..n);
+			let j = if i == 0 { 1 } else if i == n - 1 { n - 2 } else if rng.gen_bool(0.5) { i - 1 } else { i + 1 };
+			let mut o = json!({"op":"config","node":i,"peer":j});
+			match rng.gen_range(0..5) {
+				0 => { o["fee_base"] = json!([0u64, 500, 1000, 2000, 5000][rng.gen_range(0..5)]); },
+				1 => { o["fee_ppm"] = json!([0u64, 100, 1000, 10000][rng.gen_range(0..4)]); },
+				2 => { o["cltv_delta"] = json!([48u64, 50, 72, 144][rng.gen_range(0..4)]); },
+				3 => { o["max_dust_msat"] = json!([5_000_000u64, 50_000_000, 500_000_000][rng.gen_range(0..3)]); },
+				_ => { o["avoid_fee"] = json!([0u64, 1000, 5000][rng.gen_range(0..3)]); },
+			}
+			ops.push(o);
 		} else if r == 99 && profile != "nodisc" && profile != "limits" {
 			let a = rng.gen_range(0..n - 1);
 			let (f, t) = if rng.gen_bool(0.5) { (a, a + 1) } else { (a + 1, a) };
